@@ -100,6 +100,30 @@ def soak_case(rng, n_pages):
     return {"engine": "history", "cfg": cfg, "ops": ops, "audit_every": len(ops), "aseed": rng.getrandbits(32), "soak": n_pages}
 
 
+def wide_case(rng, n_sites):
+    """Many webentities in one index (ids well past 256, CPython's small-integer cache and any
+    one-byte assumption): n_sites sites, each with an http and an https page linking to each other
+    (same webentity through two different prefixes), cross links, a few nested webentities."""
+    ops = []
+    sites = []
+    for i in range(n_sites):
+        host = b"h:com|h:s%d|" % i
+        a = b"s:http|" + host + b"p:a|"
+        b = b"s:https|" + host + b"p:b|"
+        sites.append((a, b))
+        links = [[a, b], [b, a]]
+        if i:
+            j = rng.randrange(i)
+            links.append([a, sites[j][rng.randrange(2)]])
+        ops.append({"op": "add_links", "links": links, "as_str": False})
+        if i % 37 == 5:
+            ops.append({"op": "create", "prefixes": [b"s:http|" + host + b"p:a|"]})
+        if i % 41 == 7:
+            ops.append({"op": "delete", "of": b"s:http|h:com|h:s%d|" % (i - 1), "prefixes": [b"s:http|h:com|h:s%d|" % (i - 1), b"s:https|h:com|h:s%d|" % (i - 1)]})
+    cfg = {"backend": rng.choice(["file", "memory"]), "default": "domain", "encoding": "utf-8", "overwrite": False, "rules": []}
+    return {"engine": "history", "cfg": cfg, "ops": ops, "audit_every": len(ops), "aseed": rng.getrandbits(32), "wide": n_sites}
+
+
 def run_case(prop, case, spec, scratch, stats):
     """Returns (discrepancies, features, digest)."""
     props = set(spec.get("audits", [prop]))
@@ -243,6 +267,8 @@ def run_shard(prop, spec, tier, seed, shard, nshards, scratch):
         res["exhaustive"] = True
     if tp.get("soak") and shard == 0:
         extra.append(("soak", tp["soak"], None))
+    if tp.get("wide") and shard == nshards - 1:
+        extra.append(("wide", tp["wide"], None))
     for kind, a1, a2 in extra:
         if time.time() > deadline:
             if kind == "shape":
@@ -253,14 +279,17 @@ def run_shard(prop, spec, tier, seed, shard, nshards, scratch):
         if kind == "shape":
             case = shape_case(rng, list(a2), a1, "file" if (len(a2) + a2[0]) % 2 else "memory")
             stats["exhaustive_shape_cases"] += 1
+        elif kind == "wide":
+            case = wide_case(rng, a1)
+            stats["wide_cases_many_webentities"] += 1
         else:
             case = soak_case(rng, a1)
             stats["soak_cases"] += 1
         case["id"] = "%s/%s/%s" % (kind, a1, "".join(map(str, a2 or ())))
         ds, feats, digest = run_case(prop, case, spec, scratch, stats)
         res["cases"] += 1
-        if kind == "soak":
-            res["notes"].append("soak case: %s" % feats)
+        if kind in ("soak", "wide"):
+            res["notes"].append("%s case: %s" % (kind, feats))
         if feats and nontrivial(feats):
             res["nontrivial"].append(digest)
         for d in ds:
